@@ -10,7 +10,7 @@ Extraction "model.ml"
   q_allocated_bytes q_allocated_bytes_incl q_chunk_capacity q_iter_chunks held
   cur_ptr cur_foot cur_start fast_ptr
   sp_accounting apply_frees sp_block_ok sp_aligned sp_limit_ok sp_iter_ok sp_reset_ok
-  sp_stores_owned sp_growth_ok sp_iter_exact footer_of lay_ok layout_ok
+  sp_stores_owned sp_growth_ok sp_chain_ok sp_iter_exact footer_of lay_ok layout_ok
   mkVec mkEcfg v_cap contents vwith_capacity push pop insert remove swap_remove truncate truncate_state
   try_reserve reserve shrink_to_fit drain drain_filter retain dedup_by dedup_state resize
   extend_copy extend_iter extend_slices_copy split_off drop_vec
